@@ -26,7 +26,7 @@ SPEC = 'Session/Session.tla'
 TRACE = 'Session/SessionTrace.tla'
 
 ACTIONS = ['Start', 'Login', 'Advertise', 'BurstEnd', 'ServerLoss', 'UserDisconnect', 'WatchdogWake',
-           'ReconnectOk', 'ReconnectFail', 'Execute', 'StopBegin', 'StopServices', 'StopReturn',
+           'ReconnectOk', 'ReconnectFail', 'Execute', 'StopBegin', 'StopStall', 'StopNetDone', 'StopServices', 'StopReturn',
            'Spawn', 'PeerOpens', 'PeerIn']
 
 LONG = 700.0            # longer than every timer of the library (ping 300 s, tracking retry 600 s)
@@ -53,7 +53,7 @@ def cfg_key(st) -> tuple:
     c = st['cfg']
     return (tuple(sorted(c['ports'])), tuple(sorted(c['friends'])), tuple(sorted(c['liked'])),
             tuple(sorted(c['hated'])), tuple(sorted(c['favs'])), bool(c['autoJoin']), bool(c['invites']),
-            bool(c['reconnect']), int(c['shares'][0]) // 2)
+            bool(c['reconnect']), int(c['shares'][0]) // 2, bool((st.get('plan') or {}).get('slow', False)))
 
 
 def stimuli_of(labels) -> tuple:
@@ -66,6 +66,7 @@ def stimuli_of(labels) -> tuple:
     login_idx = None          # index in `out` of the stimulus whose login burst is running
     spawn_idx = {}
     wake = False               # WatchdogWake seen, outcome not yet
+    stop_at = None             # where the stop went: ('out', index) or ('inj', index of the login stimulus)
     for lab in labels:
         name, a = _parse_label(lab)
         if name == 'Start':
@@ -86,15 +87,27 @@ def stimuli_of(labels) -> tuple:
         elif name == 'BurstEnd':
             in_burst = False
         elif name in ('ServerLoss', 'UserDisconnect', 'StopBegin'):
-            what = ('loss', a[0]) if name == 'ServerLoss' else ('userdisc',) if name == 'UserDisconnect' else ('stop',)
+            what = ('loss', a[0]) if name == 'ServerLoss' else ('userdisc',) if name == 'UserDisconnect' \
+                else ('stop', 'fast')
             if wake and name == 'StopBegin':
                 out.append(['reconn', 'hang', 'ok', None])
                 wake = False
             if in_burst and login_idx is not None:
                 out[login_idx][-1] = (pos, what)
                 in_burst = False
+                if name == 'StopBegin':
+                    stop_at = ('inj', login_idx)
             else:
                 out.append(list(what))
+                if name == 'StopBegin':
+                    stop_at = ('out', len(out) - 1)
+        elif name == 'StopStall' and stop_at is not None:
+            # closing the connections takes long: timers of the library come due inside stop()
+            if stop_at[0] == 'out':
+                out[stop_at[1]][1] = 'slow'
+            else:
+                k, _ = out[stop_at[1]][-1]
+                out[stop_at[1]][-1] = (k, ('stop', 'slow'))
         elif name == 'WatchdogWake':
             wake = True
         elif name == 'ReconnectOk':
@@ -110,7 +123,7 @@ def stimuli_of(labels) -> tuple:
             out.append(['spawn', a[0], 'any'])
             spawn_idx[a[0]] = len(out) - 1
         elif name == 'Finish':
-            out.append(['wait', LONG])
+            out.append(['scanfin'] if a and a[0] == 'scan' else ['wait', LONG])
         elif name == 'PeerOpens':
             if a[0] in spawn_idx:
                 out[spawn_idx[a[0]]][2] = 'delay'
@@ -319,12 +332,13 @@ class Runner:
     async def _main(self, loop, cfg, stimuli, conc, events):
         from aioslsk.protocol import messages as M
         from aioslsk.events import SessionInitializedEvent, SessionDestroyedEvent, ConnectionStateChangedEvent
-        from aioslsk.network.connection import ServerConnection
+        from aioslsk.network.connection import ListeningConnection, ServerConnection
         from aioslsk.exceptions import AuthenticationError, InvalidSessionError
         from aioslsk.commands import GetUserStatusCommand
         from aioslsk.user.model import UserStatus
 
-        ports_a, friends, liked, hated, favs, auto_join, invites, reconnect, nshared = cfg
+        ports_a, friends, liked, hated, favs, auto_join, invites, reconnect, nshared = cfg[:9]
+        slow_scan = bool(cfg[9]) if len(cfg) > 9 else False
         nm: Names = conc['names']
         pclear, pobf = conc['ports']
         T = conc['T']
@@ -396,7 +410,8 @@ class Runner:
                     elif k == 'timeout':
                         stall_writes(client_writer())
                 elif kind == 'stop':
-                    st['stop_task'] = loop.create_task(do_stop(), name='harness-stop')
+                    st['stop_task'] = loop.create_task(do_stop(len(what) > 1 and what[1] == 'slow'),
+                                                       name='harness-stop')
                 elif kind == 'userdisc':
                     st['aux'].append(loop.create_task(do_userdisc(), name='harness-userdisc'))
 
@@ -436,6 +451,31 @@ class Runner:
             )
             client = make_client(settings)
             keep = []
+            peers: list = []
+
+            # a slow start-up scan: the executor jobs of the scan are held until the schedule says so
+            held: list = []
+
+            def gate(func, a):
+                if not st.get('scan_held'):
+                    return None
+                fut = loop.create_future()
+                held.append((fut, func, a))
+                return fut
+
+            def release_scan():
+                st['scan_held'] = False
+                while held:
+                    fut, func, a = held.pop(0)
+                    if fut.done():
+                        continue
+                    try:
+                        fut.set_result(func(*a))
+                    except BaseException as exc:  # noqa
+                        fut.set_exception(exc)
+            if slow_scan:
+                st['scan_held'] = True
+                loop.executor_gate = gate
 
             def listen(ec, fn):
                 keep.append(fn)
@@ -487,18 +527,59 @@ class Runner:
                 if dt > 0:
                     await asyncio.sleep(dt)
                 await settle()
+                if st.get('in_stop'):
+                    return          # a stop() issued inside a burst is still running: not a quiescent moment
                 rec('q', **snap())
 
             async def guarded(coro, limit=3000.0):
                 return await asyncio.wait_for(coro, limit)
 
-            async def do_stop():
+            async def slow_listener(e):
+                """An application listener that takes its time on one report of a connection that stop()
+                is closing (e.g. to remove a port mapping).  The event bus awaits listeners inline, so the
+                close - and stop() - last that long."""
+                plan = st.get('stall')
+                if plan is None or e.close_reason.name != 'REQUESTED' or e.state.name.lower() != plan['state']:
+                    return
+                kind = ('server' if isinstance(e.connection, ServerConnection)
+                        else 'listening' if isinstance(e.connection, ListeningConnection) else 'peer')
+                if plan['on'] not in ('any', kind):
+                    return
+                cur = asyncio.current_task()
+                if cur is not None and cur.cancelling():
+                    # the report comes from a task stop() has cancelled and does not wait for (a connect that
+                    # closes its half-made connection): slowing that down says nothing about stop()
+                    return
+                st['stall'] = None
+                rec('stall', on=kind, st=plan['state'], d=int(plan['d'] * 1000))
+                sess = srv.sessions[-1] if srv.sessions else None
+                if plan['poke'] and sess is not None and not sess.closed:
+                    # a server stimulus that lands inside stop()
+                    if ('*', 62002) not in net.listeners:
+                        peers.append(await ScriptedPeer(net, 'pc1', 62002).listen())
+                    pol[62002] = ('delay', 1.0)
+                    sess.send(M.ConnectToPeer.Response(username='pc1', typ='P', ip='10.0.0.2', port=62002,
+                                                       ticket=4343, privileged=False, obfuscated_port_amount=0,
+                                                       obfuscated_port=0))
+                await asyncio.sleep(plan['d'])
+                rec('note', what='stall_end')
+            keep.append(slow_listener)
+            client.events.register(ConnectionStateChangedEvent, slow_listener)
+
+            async def do_stop(slow=False):
+                if slow:
+                    # long enough for the reconnect watchdog (and the 10 s retries / write timeouts) to come due
+                    st['stall'] = dict(on=conc.get('stall_on', 'any'), state=conc.get('stall_state', 'closing'),
+                                       d=max(T + 2.0, conc.get('stall_min', 0.0)), poke=conc.get('stall_poke', False))
                 rec('stop_call')
+                st['in_stop'] = True
                 try:
                     await guarded(client.stop())
                     res = 'ok'
                 except Exception as exc:  # an observation, not a harness failure
                     res = 'exc:' + type(exc).__name__
+                st['stall'] = None
+                st['in_stop'] = False
                 await settle()
                 rec('stop_ret', res=res, **snap())
 
@@ -548,8 +629,6 @@ class Runner:
                         if client.network.server_connection.state.name != 'CONNECTED':
                             break
 
-            peers = []
-
             async def spawn(kind, variant):
                 sess = srv.sessions[-1] if srv.sessions else None
                 slow = variant == 'delay'
@@ -588,7 +667,7 @@ class Runner:
             # ---- run the schedule -----------------------------------------------------------
             rec('init', ports=sorted(ports_a), friends=sorted(friends), liked=sorted(liked), hated=sorted(hated),
                 favs=sorted(favs), autoJoin=auto_join, invites=invites, reconnect=reconnect,
-                shares=self.trees.expected(nshared), T=int(T * 1000), slack=SLACK_MS)
+                shares=self.trees.expected(nshared), slowscan=slow_scan, T=int(T * 1000), slack=SLACK_MS)
             stopped = False
             started = False
             for stim in stimuli:
@@ -665,7 +744,7 @@ class Runner:
                     await do_userdisc()
                     await quiesce(0.01)
                 elif op == 'stop':
-                    await do_stop()
+                    await do_stop(len(stim) > 1 and stim[1] == 'slow')
                     stopped = True
                 elif op == 'exec':
                     n0 = len(srv.requests(M.GetUserStatus.Request))
@@ -690,6 +769,10 @@ class Runner:
                     await quiesce(0.6 if stim[1] == 'xfer' else 0.02)
                 elif op == 'wait':
                     await quiesce(float(stim[1]))
+                elif op == 'scanfin':
+                    release_scan()
+                    rec('note', what='scan released')
+                    await quiesce(0.05)
                 elif op == 'peerin':
                     lp = [p for p in (pclear if 'clear' in ports_a else 0, pobf if 'obf' in ports_a else 0) if p]
                     if lp and ('*', lp[0]) in net.listeners:
@@ -710,7 +793,7 @@ class Runner:
                 stopped = True
             if started and not stopped:
                 await quiesce(T + 2.0)
-                await do_stop()
+                await do_stop(conc.get('epi_slow', False))
                 stopped = True
             for tk in st['aux']:
                 if not tk.done():
@@ -720,6 +803,7 @@ class Runner:
                         pass
             if st.get('gate') is not None and not st['gate'].done():
                 st['gate'].set_result('ok')
+            release_scan()
             if started:
                 await quiesce(conc.get('tail', LONG))
             if loop.unhandled:
@@ -781,7 +865,9 @@ def schedules_from_simulation(cfgname: str, tag: str, num: int, depth: int, seed
             if not labels or not m:
                 continue
             n += 1
-            init = cfg_key(dict(cfg=tlc.parse_value(m.group(1).replace('\n', ' '))))
+            slow = re.search(r'slow \|-> (TRUE|FALSE)', blk.group(1))
+            init = cfg_key(dict(cfg=tlc.parse_value(m.group(1).replace('\n', ' ')),
+                                plan=dict(slow=bool(slow and slow.group(1) == 'TRUE'))))
             stim = stimuli_of(labels[1:])
             if stim:
                 out.setdefault((init, stim), tag)
@@ -829,7 +915,9 @@ def select(scheds: dict, cap: int, rng) -> list:
 def concretise(rng) -> dict:
     base = rng.choice([61000, 40000, 2234])
     return dict(names=Names(rng), ports=(base, base + rng.choice([1, 7])), T=rng.choice([3, 10, 25]),
-                variant=rng.choice(['hang', 'delay']), notice=rng.choice(['ack', 'track']))
+                variant=rng.choice(['hang', 'delay']), notice=rng.choice(['ack', 'track']),
+                stall_on=rng.choice(['any', 'any', 'listening', 'peer']), stall_state=rng.choice(['closing', 'closed']),
+                stall_min=rng.choice([0.0, 0.0, 12.0]), stall_poke=rng.random() < 0.3, epi_slow=rng.random() < 0.3)
 
 
 _RUNNER = None
@@ -900,7 +988,8 @@ def replay(chk: Check, data: dict):
     meta = data['replay']['meta']
     cfg, stim, c = _freeze(meta['cfg']), _freeze(meta['stimuli']), meta['conc']
     conc = dict(names=Names.from_map(c['names']), ports=tuple(c['ports']), T=c['T'], variant=c['variant'],
-                notice=c.get('notice', 'ack'))
+                notice=c.get('notice', 'ack'),
+                **{k: c[k] for k in ('stall_on', 'stall_state', 'stall_min', 'stall_poke', 'epi_slow') if k in c})
     tmp = tempfile.mkdtemp(prefix='c16-')
     try:
         # the share trees are drawn first from the run's seed, exactly as in the recorded run
@@ -938,16 +1027,17 @@ def run(chk: Check, args):
     chk.cov['rule'] = ('schedule = (settings vector, sequence of start / login(mode, injection at the k-th '
                        'advertisement) / loss(kind) / reconnect(outcome, login mode, injection) / disconnect / stop / '
                        'spawn(kind) / execute / peer-in / wait stimuli) projected from TLC behaviours of Session.tla '
-                       '(edge cover of the state graph of MC_cover, simulation of MC_quick / MC_big, one login per '
+                       '(edge cover of the state graphs of MC_cover and MC_cover_scan, simulation of MC_quick / MC_big, one login per '
                        'vector of the full settings matrix in the thorough tier); quick replays a feature-covering '
                        'selection, thorough all of them; each is run on a real SoulSeekClient on the simulated '
                        'network in virtual time with a seeded concretisation (names, ports, reconnect timeout, '
                        'connect hang/delay, who notices a dead socket, share trees); distinct = distinct recorded '
                        'traces; non-trivial = a session was initialised or a loss / stop was observed')
-    switches = ['autojoin', 'dist', 'watchdog', 'timers', 'staleinit', 'selfawait', 'queueonce']
+    switches = ['autojoin', 'dist', 'watchdog', 'cancelfirst', 'timers', 'staleinit', 'selfawait', 'queueonce', 'scan']
     want = {'autojoin': {'AdvertisedOnly', 'AdvertisedExactly'}, 'dist': {'StopIsFinal'},
             'watchdog': {'ReconnectOnlyIf', 'StopIsFinal'}, 'timers': {'StopIsFinal'},
-            'staleinit': {'StopIsFinal', 'AdvertisedExactly'},
+            'staleinit': {'StopIsFinal', 'AdvertisedExactly'}, 'cancelfirst': {'ReconnectOnlyIf', 'StopIsFinal'},
+            'scan': {'StopIsFinal'},
             'selfawait': {'SessionOnConnection', 'DestroyedOncePerLoss', 'DerivedCleared'},
             'queueonce': {'StopIsFinal'}}
 
@@ -957,6 +1047,7 @@ def run(chk: Check, args):
                           if thorough else tlc.run_tlc(SPEC, 'MC_quick.cfg', timeout=900)),
         'live': lambda: tlc.run_tlc(SPEC, 'MC_live.cfg', workers=2, timeout=900),
         'cover': lambda: schedules_from_graph(chk, 'MC_cover.cfg', 'cover'),
+        'coverscan': lambda: schedules_from_graph(chk, 'MC_cover_scan.cfg', 'coverscan'),
         'sim': lambda: (schedules_from_simulation('MC_big.cfg', 'simbig', 1500, 45, chk.seed + 1) if thorough
                         else schedules_from_simulation('MC_quick.cfg', 'simquick', 300, 40, chk.seed + 1)),
     }
@@ -991,18 +1082,27 @@ def run(chk: Check, args):
     chk.cov['graph_edges_cover'] = ginfo['edges']
     chk.cov['cover_paths'] = ginfo['paths']
     chk.cov['cover_schedules'] = ginfo['schedules']
+    scans, cinfo = out['coverscan']
+    chk.add_model('Session cover graph, slow start-up scan (2 settings vectors, dumped)', cinfo['res'])
+    chk.log(f"cover graph (slow scan): {cinfo['states']} states, {cinfo['edges']} edges, "
+            f"{cinfo['schedules']} distinct schedules")
+    chk.cov['cover_scan_schedules'] = cinfo['schedules']
     sims, sinfo = out['sim']
     chk.log(f"simulation: {sinfo['behaviours']} behaviours, {sinfo['schedules']} distinct schedules")
     chk.cov['sim_behaviours'] = sinfo['behaviours']
     if thorough:
-        keys = sorted(scheds, key=repr)
+        keys = select(scheds, 12000, chk.rng)       # feature cover first, seeded fill (budget: ~10 min)
         sweep, winfo = out['sweep']
         chk.add_model('Session settings sweep (3456 vectors, one login each)', winfo['res'])
         keys += [k for k in sorted(sweep, key=repr) if k not in scheds]
         for k, v in sweep.items():
             scheds.setdefault(k, v)
     else:
-        keys = select(scheds, 1300, chk.rng)
+        keys = select(scheds, 1100, chk.rng)
+    more = [k for k in (sorted(scans, key=repr) if thorough else select(scans, 300, chk.rng)) if k not in scheds]
+    for k in more:
+        scheds[k] = scans[k]
+    keys += more
     extra = [k for k in select(sims, 600 if thorough else 250, chk.rng) if k not in scheds]
     for k in extra:
         scheds[k] = sims[k]
@@ -1020,7 +1120,9 @@ def run(chk: Check, args):
                 work.append((cfg, stim, conc))
                 metas.append(dict(cfg=cfg, stimuli=stim, source=scheds[(cfg, stim)],
                                   conc=dict(names=conc['names'].c, ports=conc['ports'], T=conc['T'],
-                                            variant=conc['variant'], notice=conc['notice'])))
+                                            variant=conc['variant'], notice=conc['notice'],
+                                            **{k: conc[k] for k in ('stall_on', 'stall_state', 'stall_min',
+                                                                    'stall_poke', 'epi_slow')})))
         traces = replay_all(work, nproc)
     finally:
         _RUNNER = None
@@ -1038,6 +1140,7 @@ def run(chk: Check, args):
     chk.cov['vectors_replayed'] = len({m['cfg'] for m in metas})
     chk.cov['task_kinds_seen_pending'] = sorted({k for tr in traces for e in tr if e['ev'] == 'q'
                                                  for k in e.get('tasks', [])})
+    chk.cov['stops_held_by_a_slow_close'] = sum(1 for tr in traces if any(e['ev'] == 'stall' for e in tr))
     chk.cov['loss_reasons_seen'] = sorted({e['reason'] for tr in traces for e in tr
                                            if e['ev'] == 'conn' and e['st'] == 'closed'})
 
@@ -1173,4 +1276,7 @@ def run(chk: Check, args):
         'the simulated transport delivers EOF / reset / write failure / blocked writes, not kernel-specific orders',
         'library task = a pending asyncio task whose coroutine code lives under src/aioslsk',
         'no stimulus is modelled between the watchdog\'s connect and its automatic login',
+        'a slow stop() = an application listener of ConnectionStateChangedEvent that suspends reconnect.timeout + 2 s '
+        '(or 12 s) on one REQUESTED CLOSING / CLOSED report made from stop()\'s own closes (not from tasks stop() '
+        'has cancelled); quiescent snapshots are not taken while a stop() issued inside a burst is running',
     ]
